@@ -30,7 +30,7 @@ func init() {
 		Rules: []string{"R05.1", "R16.4", "R16.5", "R10.1", "R10.2", "R01.7", "R04.3", "R04.2", "R11.4", "R11.5"},
 		Explanation: "The property is a composition; static analysis contributes (a) the four mechanisms named in its anchors as link rules: R16.4/R16.5 Upgrade reads the Last-Event-Id header into the subscription, R10.1/R10.2 the client stores the dispatched ID and sends it on retry, R01.7 an event cut before its blank line is discarded unless the body ended cleanly, R04.3/R04.2 Joe replays then registers atomically and live/replayed copies carry the same ID, R11.4/R11.5 a dropped connection is always reported so that it is retried; " +
 			"and (b) R05.1 wire-contract agreement: the header key the client writes canonicalises to the constant the server indexes with (itself canonical, as it is used as a raw map key), the server's Content-Type value equals what DefaultValidator compares with, both sides share the field-name constants.",
-		NotDecided: "the end-to-end sequence equality over cut sequences and timings; server survival beyond C06's rules; replay start-index arithmetic (D6).",
+		NotDecided: "the end-to-end sequence equality over cut sequences and timings; server survival beyond C06's rules; replay start-index arithmetic beyond R08.5.",
 	})
 	register(&Rule{ID: "R16.1", Title: "Session typestate: header, flush, then body; didUpgrade discipline", Floor: 6, Run: r16_1})
 	register(&Rule{ID: "R16.2", Title: "Session errors are returned", Floor: 3, Run: r16_2})
